@@ -1597,6 +1597,10 @@ class Interp:
                 r = hook(base, attr)
                 if r is not NotImplemented:
                     return r
+            if type(base) in (bytes, str, int, float, bool, tuple, frozenset, list, dict, set, bytearray, type(None)) \
+                    and not attr.startswith("_") and not hasattr(base, attr):
+                # a plain built-in value simply has no such attribute: AttributeError, as in CPython
+                raise Raised(ExcVal("AttributeError", (f"'{type(base).__name__}' object has no attribute '{attr}'",)), node)
             raise Unsupported(f"method {type(base).__name__}.{attr} is not modelled")
         if isinstance(base, Sym):
             hook = self.ext.get("sym_attr")
